@@ -17,6 +17,7 @@ import (
 // the bytes of an abandoned transaction into the next message's event.
 func c04PerMessageState(c *Ctx) {
 	const rule = "message-state-per-message"
+	c.Explanation += " smtp message content is accumulated per message (or the accumulator is emptied wherever the message is replaced)."
 	p := c.P
 	connT := p.Type("services/smtp", "conn")
 	if !c.Anchor(connT != nil, rule, "services/smtp.conn") {
